@@ -1,5 +1,6 @@
 import PyrexVerif.Proofs.DftProps3
 import PyrexVerif.Proofs.DftApply
+import PyrexVerif.Proofs.DftExtra
 /-!
 # C05 — frequency filtering is linear, real-preserving, passive and free of wrap-around
 
@@ -155,6 +156,19 @@ theorem C05_filter_homog_complex (x : List ℝ) (c : Cx) (H : ℝ → Cx) (dt : 
       = cmul c ((filterCore x (getFilterResponse (fftfreqs (2 * x.length) dt) H false vec)).getD k 0) :=
   DftApply.filter_homog_complex x c H dt vec k hk
 
+/-- the all-zero signal is mapped to the all-zero signal (a degenerate input needs no special treatment) -/
+theorem C05_filter_zero (times : List ℝ) (H : ℝ → Cx) (fr vec : Bool) :
+    filterFrequencies times (List.replicate times.length (0 : ℝ)) H fr vec
+      = List.replicate times.length (0 : ℝ) :=
+  DftExtra.filter_zero times H fr vec
+
+/-- for a response that is already Hermitian (`H(−f) = conj H(f)`, e.g. any real even gain) `force_real` changes
+nothing — the filter applies one and the same factor to `+f` and `−f` either way -/
+theorem C05_force_real_noop_of_hermitian (times x : List ℝ) (H : ℝ → Cx) (vec : Bool)
+    (hH : ∀ f, H (-f) = cconj (H f)) :
+    filterFrequencies times x H true vec = filterFrequencies times x H false vec :=
+  DftExtra.force_real_noop_of_hermitian times x H vec hH
+
 /-! ### non-vacuity: concrete instances of the hypotheses and of the K1 wrap-around -/
 
 example : ([1, 0, 0.5] : List ℝ).length = ([0, 2, 4] : List ℝ).length ∧ sigDt [0, 2, 4] ≠ 0 := by
@@ -172,3 +186,15 @@ example : (filterFrequencies [0, 1, 2, 3, 4, 5, 6, 7] [1, 0, 0, 0, 0, 0, 0, 0.5]
 /-- the constant response 1/2 meets the hypothesis of `C05_filter_passive` -/
 example : ∀ f : ℝ, cnormSq ((fun _ => ((0.5, 0) : Cx)) f) ≤ 1 := by
   intro f; simp [cnormSq]; norm_num
+
+/-- a real even gain is Hermitian (hypothesis of `C05_force_real_noop_of_hermitian`) -/
+example : ∀ f : ℝ, (fun f : ℝ => ((1 / (1 + f ^ 2), 0) : Cx)) (-f) = cconj ((fun f : ℝ => ((1 / (1 + f ^ 2), 0) : Cx)) f) := by
+  intro f; simp [cconj]
+
+/-- two stacked filters sharing the `force_real` flag (hypothesis of `C05_apply_filters_stacked`) -/
+example : ∀ flt ∈ ([((fun _ => ((0.5, 0) : Cx)), true, true), ((fun f => cis f), true, false)] :
+    List ((ℝ → Cx) × Bool × Bool)), flt.2.1 = true := by
+  intro flt h; simp at h; rcases h with rfl | rfl <;> rfl
+
+/-- a list of positive length (hypothesis of `C05_parseval`), a bin index below `2N` (`C05_filter_homog_complex`) -/
+example : 0 < ([(1, 0), (0, 1)] : List Cx).length ∧ 3 < 2 * ([1, 2] : List ℝ).length := by simp
